@@ -519,3 +519,31 @@ Example C13_denotation_meaning_nontrivial :
   ~ is_mapping_of swap (lookup [(0%N, 2#1); (1%N, 2#1)]) /\
   wf_scope twice = true /\ (forall f, is_mapping_of twice f -> f 0%N = Some (6#1) /\ f 1%N = Some (2#1)).
 Proof. exact p_C13_denotation_meaning_nontrivial. Qed.
+
+Require Import QV.C13.SpecLazy.
+
+(* SINGLE NAMES ON EVERY SCOPE (also one that does not denote a whole mapping because some OTHER mapping expression has no
+   value).  `value_at s x` (SpecLazy.v) is the value the statement gives the name x alone: the expression of its innermost
+   definition evaluated in the values of the outer scope, the index value, the value in the joint scope's sub scope.  In
+   every state reachable by any history, with NO hypothesis on the scope: a lookup returns q iff q is that value (it
+   raises iff there is none); a dictionary view / items call that returns holds, for each of its names, that value; and
+   when the scope denotes d the value is `lookup d x` (so this extends C13_views, it does not compete with it).  Which
+   exception is raised, and whether as_dict raises on a scope that does not denote, is not stated. *)
+Theorem C13_lookup_partial : forall s0 ops s c,
+  exec (s0, cempty) ops = (s, c) ->
+  (forall x, to_opt (fst (get s c x)) = value_at s x) /\
+  (forall d, fst (as_dict s c) = Ok d -> forall x v, lookup d x = Some v -> value_at s x = Some v) /\
+  (forall d, fst (items s c) = Ok d -> forall x v, lookup d x = Some v -> value_at s x = Some v) /\
+  (forall d, wf_scope s = true -> denote_scope s = Ok d -> forall x, value_at s x = lookup d x).
+Proof. exact p_C13_lookup_partial. Qed.
+Print Assumptions C13_lookup_partial.
+
+(* non-vacuity: an expression over a name nobody provides above a swap: the scope denotes nothing, that parameter has no
+   value, the others have theirs and a lookup returns them *)
+Example C13_lookup_partial_nontrivial :
+  let s := SMapped (SMapped (SDict [(0%N, 1#1); (1%N, 2#1)] [0%N]) [(0%N, EVar 1%N); (1%N, EVar 0%N)])
+                   [(3%N, EAdd (EVar 5%N) (EConst (1#1))); (2%N, EAdd (EVar 0%N) (EVar 0%N))] in
+  denote_scope s = Err EMissing /\ value_at s 3%N = None /\ value_at s 0%N = Some (2#1) /\
+  value_at s 1%N = Some (1#1) /\ value_at s 2%N = Some (4#1) /\
+  fst (get s cempty 2%N) = Ok (4#1) /\ fst (get s cempty 3%N) = Err EMissing.
+Proof. exact p_C13_lookup_partial_nontrivial. Qed.
